@@ -514,7 +514,7 @@ func judgeReplies(c Case, s0 *state0, reqs []Step, built []*idpsrv.Built, replie
 			if u, ok := s0.users[s.User]; ok && u.pw >= 0 && idpsrv.Passwords[u.pw] == formPassword(s) {
 				subjects = append(subjects, subj{s.User, u.profile})
 				for _, o := range reqs {
-					if o.Op == "put_user" && o.Name == s.User {
+					if o.Op == "put_user" && o.Name == s.User && !o.Bad {
 						subjects = append(subjects, subj{s.User, o.Profile})
 					}
 				}
@@ -548,7 +548,7 @@ func judgeReplies(c Case, s0 *state0, reqs []Step, built []*idpsrv.Built, replie
 				entities[e] = true
 			}
 			for _, o := range reqs {
-				if o.Op == "put_shortcut" && o.Name == s.Name {
+				if o.Op == "put_shortcut" && o.Name == s.Name && !o.Bad {
 					entities[idpsrv.Entities[clampI(o.Issuer, len(idpsrv.Entities))]] = true
 				}
 			}
@@ -558,7 +558,7 @@ func judgeReplies(c Case, s0 *state0, reqs []Step, built []*idpsrv.Built, replie
 			variants = append(variants, v)
 		}
 		for _, o := range reqs {
-			if o.Op == "put_service" && o.MD >= 0 && o.MD < len(idpsrv.Variants) {
+			if o.Op == "put_service" && !o.Bad && o.MD >= 0 && o.MD < len(idpsrv.Variants) {
 				variants = append(variants, o.MD)
 			}
 		}
@@ -1178,6 +1178,12 @@ func (w *world) genReq(t *rapid.T) Step {
 		}
 		return rapid.IntRange(0, 2).Draw(t, "issuer")
 	}
+	switch cls := rapid.IntRange(0, 19).Draw(t, "req-class"); {
+	case cls < 4:
+		return w.genFailing(t)
+	case cls < 7:
+		return w.genReader(t)
+	}
 	switch k := rapid.IntRange(0, 99).Draw(t, "req"); {
 	case k < 22:
 		s.Op = "sso"
@@ -1220,7 +1226,7 @@ func (w *world) genReq(t *rapid.T) Step {
 	case k < 60:
 		s.Op = "put_service"
 		s.Name = pick(t, "service", idpsrv.ServiceNames)
-		s.MD = rapid.IntRange(0, 3).Draw(t, "md")
+		s.MD = rapid.IntRange(0, len(idpsrv.Variants)-1).Draw(t, "md")
 		s.Method = pick(t, "method", []string{"PUT", "POST"})
 	case k < 68:
 		s.Op = "del_service"
@@ -1231,7 +1237,7 @@ func (w *world) genReq(t *rapid.T) Step {
 	case k < 77:
 		s.Op = "put_user"
 		s.Name = pick(t, "user", idpsrv.UserNames)
-		s.Profile = rapid.IntRange(0, 2).Draw(t, "profile")
+		s.Profile = rapid.IntRange(0, idpsrv.NProfiles-1).Draw(t, "profile")
 	case k < 80:
 		s.Op = "del_user"
 		s.Name = pick(t, "user", idpsrv.UserNames)
@@ -1255,6 +1261,82 @@ func (w *world) genReq(t *rapid.T) Step {
 		s.Name = idpsrv.ShortcutNames[0]
 	default:
 		s.Op = "metadata"
+	}
+	return s
+}
+
+// genFailing draws a request that is meant to fail: every error path of every handler must
+// be reachable next to the others, so that a lock or a half-made change left behind shows.
+func (w *world) genFailing(t *rapid.T) Step {
+	s := Step{Pw: -1}
+	user := pick(t, "user", sortedKeys(w.users))
+	switch pick(t, "failing", []string{"del-missing-service", "del-missing-user", "del-missing-session", "del-missing-shortcut", "bad-service", "bad-user", "bad-shortcut",
+		"login-wrong-password", "sso-wrong-password", "sso-unknown-issuer", "sso-foreign-acs", "launch-missing-shortcut", "launch-forged-cookie", "launch-expired-or-any",
+		"get-missing-user", "get-missing-service", "get-missing-shortcut", "get-missing-session", "sso-unknown-user"}) {
+	case "del-missing-service":
+		s.Op, s.Name = "del_service", "no-such-service"
+	case "del-missing-user":
+		s.Op, s.Name = "del_user", "nobody"
+	case "del-missing-session":
+		s.Op, s.Session = "del_session", Cookie{Kind: "forged", Val: "no/such+session="}
+	case "del-missing-shortcut":
+		s.Op, s.Name = "del_shortcut", "no-such-shortcut"
+	case "bad-service":
+		s.Op, s.Name, s.Bad = "put_service", pick(t, "service", idpsrv.ServiceNames), true
+		s.Method = pick(t, "method", []string{"PUT", "POST"})
+	case "bad-user":
+		s.Op, s.Name, s.Bad = "put_user", pick(t, "user-name", idpsrv.UserNames), true
+	case "bad-shortcut":
+		s.Op, s.Name, s.Bad = "put_shortcut", pick(t, "shortcut", idpsrv.ShortcutNames), true
+	case "login-wrong-password":
+		s.Op, s.Method, s.User, s.Pw = "login", "POST", user, (w.users[user]+1)%3
+	case "sso-wrong-password":
+		s.Op, s.Method, s.User, s.Pw = "sso", "POST", user, (w.users[user]+1)%3
+		s.Issuer = idpsrv.Variants[w.services[sortedKeys(w.services)[0]]].Entity
+		s.ACS = idpsrv.Variants[w.services[sortedKeys(w.services)[0]]].ACS[0]
+	case "sso-unknown-user":
+		s.Op, s.Method, s.User, s.Pw = "sso", "POST", "nobody", 0
+		s.Issuer = idpsrv.Variants[w.services[sortedKeys(w.services)[0]]].Entity
+		s.ACS = idpsrv.Variants[w.services[sortedKeys(w.services)[0]]].ACS[0]
+	case "sso-unknown-issuer":
+		s.Op, s.Method, s.Issuer, s.ACS, s.Cookie = "sso", "GET", 2, 0, w.genCookie(t)
+	case "sso-foreign-acs":
+		s.Op, s.Method, s.ACS, s.Cookie = "sso", "GET", 4, w.genCookie(t)
+		s.Issuer = idpsrv.Variants[w.services[sortedKeys(w.services)[0]]].Entity
+	case "launch-missing-shortcut":
+		s.Op, s.Name, s.Method, s.Cookie = "launch", "no-such-shortcut", "GET", w.genCookie(t)
+	case "launch-forged-cookie":
+		s.Op, s.Name, s.Method, s.Cookie = "launch", sortedKeys(w.shortcuts)[0], "GET", Cookie{Kind: "forged", Val: "forged"}
+	case "launch-expired-or-any":
+		s.Op, s.Name, s.Method = "launch", sortedKeys(w.shortcuts)[0], "POST"
+		s.User, s.Pw = user, w.users[user] // credentials a launch never reads
+	case "get-missing-user":
+		s.Op, s.Name = "get_user", "nobody"
+	case "get-missing-service":
+		s.Op, s.Name = "get_service", "no-such-service"
+	case "get-missing-shortcut":
+		s.Op, s.Name = "get_shortcut", "no-such-shortcut"
+	case "get-missing-session":
+		s.Op, s.Session = "get_session", Cookie{Kind: "forged", Val: "nope"}
+	}
+	return s
+}
+
+// genReader draws a GET / list request: a concurrent reader for every other handler.
+func (w *world) genReader(t *rapid.T) Step {
+	s := Step{Pw: -1}
+	s.Op = pick(t, "reader", []string{"get_user", "list_users", "get_service", "list_services", "get_shortcut", "list_shortcuts", "get_session", "list_sessions", "metadata", "login-get"})
+	switch s.Op {
+	case "get_user":
+		s.Name = pick(t, "user", idpsrv.UserNames)
+	case "get_service":
+		s.Name = pick(t, "service", idpsrv.ServiceNames)
+	case "get_shortcut":
+		s.Name = pick(t, "shortcut", idpsrv.ShortcutNames)
+	case "get_session":
+		s.Session = Cookie{Kind: "session", Idx: rapid.IntRange(0, w.nsess-1).Draw(t, "sess")}
+	case "login-get":
+		s.Op, s.Method, s.Cookie = "login", "GET", w.genCookie(t)
 	}
 	return s
 }
@@ -1318,6 +1400,29 @@ func pairTemplates() []Step {
 		{Op: "del_shortcut", Name: "sc-x", Pw: -1},
 		{Op: "del_session", Pw: -1, Session: c0},
 		{Op: "metadata", Pw: -1},
+		// requests that fail: every error path next to every other handler
+		{Op: "del_service", Name: "no-such-service", Pw: -1},
+		{Op: "del_user", Name: "nobody", Pw: -1},
+		{Op: "del_shortcut", Name: "no-such-shortcut", Pw: -1},
+		{Op: "del_session", Pw: -1, Session: Cookie{Kind: "forged", Val: "no/such+session="}},
+		{Op: "put_service", Name: "svc-a", MD: 1, Pw: -1, Bad: true},
+		{Op: "put_user", Name: "alice", Profile: 1, Pw: -1, Bad: true},
+		{Op: "put_shortcut", Name: "sc-x", Issuer: 0, Pw: -1, Bad: true},
+		{Op: "login", Method: "POST", User: "alice", Pw: 1},
+		{Op: "sso", Method: "POST", User: "alice", Pw: 1, Issuer: 0, ACS: 0},
+		{Op: "sso", Method: "GET", Pw: -1, Issuer: 2, ACS: 0, Cookie: c0},
+		{Op: "sso", Method: "GET", Pw: -1, Issuer: 0, ACS: 4, Cookie: c0},
+		{Op: "launch", Name: "no-such-shortcut", Method: "GET", Pw: -1, Cookie: c0},
+		{Op: "launch", Name: "sc-x", Method: "GET", Pw: -1, Cookie: Cookie{Kind: "forged", Val: "forged"}},
+		{Op: "get_service", Name: "no-such-service", Pw: -1},
+		// readers of every kind
+		{Op: "get_user", Name: "alice", Pw: -1},
+		{Op: "list_users", Pw: -1},
+		{Op: "get_shortcut", Name: "sc-x", Pw: -1},
+		{Op: "list_shortcuts", Pw: -1},
+		{Op: "get_session", Pw: -1, Session: c0},
+		{Op: "list_sessions", Pw: -1},
+		{Op: "login", Method: "GET", Pw: -1, Cookie: c0},
 	}
 }
 
@@ -1352,7 +1457,7 @@ var propSched = &pbt.Prop[Case]{
 	ID: "C20",
 	Rule: "sched: a seeded store (1-3 users, 1-3 services over 4 metadata variants, 1-2 shortcuts), 1-2 sequential logins (one possibly expired), then 2-4 concurrent requests over " +
 		"{sso creds/cookie, launch, login, put/del/get/list service, put/del/get/list user, put/del/get/list shortcut, del/get/list session, metadata} run under a parking Store wrapper; the case's choice list picks which parked request proceeds at every store operation. " +
-		"Exhaustive: for every unordered pair of 15 request templates, all choice strings of 5 (thorough 8) binary decisions. " +
+		"Exhaustive: for every unordered pair of 36 request templates (every handler, its error paths and the readers), all choice strings of 5 (thorough 8) binary decisions. " +
 		"race job: the same mixes (2-5 requests) free-running over the bare MemoryStore and MemoryStore programs of 2-4 clients x <= 6 operations on 3 keys / 3 prefixes (porcupine, sequential map model), each run 3 times under the race detector. " +
 		"non-trivial: at least two requests touch the registry lock or the same store key and one of them writes; store programs with >= 2 clients and a writer. distinct: sha256 of the JSON case.",
 	Gen:   genSched,
